@@ -1,6 +1,6 @@
 (* C03 — Leftmost-longest search picks the leftmost start, then the longest pattern there. *)
-From DV Require Import Model.Base Model.Nfa Model.BwBuild Model.BwSearch Model.Api Model.Spec
-     Model.Cert Proofs.Leftmost Proofs.BwLeftmost.
+From DV Require Import Model.Base Model.Nfa Model.BwBuild Model.BwSearch Model.Utf8 Model.CwBuild Model.Api Model.Spec
+     Model.Cert Proofs.Leftmost Proofs.BwLeftmost Proofs.Utf8Props Proofs.CwCert Proofs.CwLeftmost.
 Local Open Scope N_scope.
 
 (* For every byte-wise automaton of a leftmost kind that passes the leftmost certificate checker
@@ -16,6 +16,16 @@ Theorem bw_lml_correct :
     bw_leftmost_find_iter V A h = Ok (spec_lml V pvs h).
 Proof. intros V veqb Hv A pvs C h Hb. exact (bw_leftmost_correct_lemma V veqb Hv A pvs C h Hb). Qed.
 Print Assumptions bw_lml_correct.
+
+(* Character-wise automaton: on the UTF-8 encoding of ANY text the result is spec_lml of the text's
+   characters with its positions translated to byte offsets (all on character boundaries). *)
+Theorem cw_lml_correct :
+  forall (V : Type) (veqb : V -> V -> bool), (forall a b, veqb a b = true -> a = b) ->
+  forall (A : cw_automaton V) (pvs : list (list N * V)), cw_lm_cert_ok veqb A pvs = true ->
+  forall cs : list N, Forall scalar cs ->
+    cw_leftmost_find_iter V A (encode_utf8 cs) = Ok (map (to_bytes V cs) (spec_lml V pvs cs)).
+Proof. intros V veqb Hv A pvs C cs Hs. exact (cw_leftmost_correct_lemma V veqb Hv A pvs C cs Hs). Qed.
+Print Assumptions cw_lml_correct.
 
 (* What each step of spec_lml chooses, on the property's own vocabulary: at the first position
    from [from] on at which some pattern occurs, the occurrence (s, e) such that every occurrence
@@ -50,6 +60,15 @@ Example c03_hypotheses_met :
   | Ok A => bw_lm_cert_ok Z.eqb A ex_pvs = true
             /\ bw_leftmost_find_iter Z A [120; 97; 98; 99; 100; 101; 98; 99; 100; 101; 97; 98; 99]
                = Ok [(1, 5, 1%Z); (6, 8, 2%Z); (10, 12, 0%Z)]%nat
+  | _ => False
+  end.
+Proof. vm_compute. split; reflexivity. Qed.
+
+Example c03_cw_hypotheses_met :
+  match cw_build_with_values Z LeftmostLongest 16 [([233; 128512], 1%Z); ([233], 2%Z); ([128512; 97; 98], 3%Z)] with
+  | Ok A => cw_lm_cert_ok Z.eqb A [([233; 128512], 1%Z); ([233], 2%Z); ([128512; 97; 98], 3%Z)] = true
+            /\ cw_leftmost_find_iter Z A (encode_utf8 [120; 233; 128512; 97; 98; 233])
+               = Ok [(1, 7, 1%Z); (9, 11, 2%Z)]%nat
   | _ => False
   end.
 Proof. vm_compute. split; reflexivity. Qed.
